@@ -36,7 +36,7 @@ def handle (j : Json) : Json :=
       | .arr a => a.toList.filterMap fun y => match y with | .str s => some s | _ => none
       | _ => []
     let files := (getArr j "files").map parts
-    match discoverFrom (parts (getJson j "root")) files (getBool j "test_run") with
+    match discoverSorted (parts (getJson j "root")) files (getBool j "test_run") with
     | .error e => Json.mkObj [("ok", .bool false), ("err", .str e.name)]
     | .ok (root, d) =>
       Json.mkObj [("ok", .bool true), ("root", .str (pathStr root)),
